@@ -673,6 +673,22 @@ def check_config(res, spec, ws, index=0, pre=None):
                 elif bool(np.all(np.asarray(a1, bool))) != bool(want[k]) or np.size(a1) != 1:
                     cx.bad('membership_vs_reference', f'scalar query at pixel ({float(qx[k])!r}, {float(qy[k])!r}): sky.contains gave {a1!r}, '
                                                       f'reference membership of the original pixel region {bool(want[k])}', bool(want[k]), repr(a1))
+        # the answer must follow the sky region's *current* state: flip its include flag in place and ask again
+        # with the same WCS object (differential oracle: the pixel image of the edited region)
+        if a is not None and index % 3 == 0 and cls not in G.EMPTY:
+            try:
+                S1.meta['include'] = not bool(S1.meta.get('include', True))
+                a2 = S1.contains(sc, w)
+                b2 = S1.to_pixel(w).contains(PixCoord.from_sky(sc, w))
+                res.transitions += 2
+                diff = _same_answers(a2, b2, False)
+                if diff:
+                    cx.bad('contains_after_edit', f'after flipping include on the sky region, sky.contains and the pixel image of the edited '
+                                                  f'region disagree: {diff}')
+                elif np.asarray(a).shape == np.asarray(a2).shape and bool(np.any((np.asarray(a2, bool) == np.asarray(a, bool)) & rb)):
+                    cx.bad('contains_after_edit', 'after flipping include on the sky region, robust positions keep their old answer')
+            except Exception as exc:
+                cx.bad('unexpected_exception', f'contains after editing the sky region raised {type(exc).__name__}: {exc}')
         if res.states <= 2:
             res.sample({'spec': spec, 'wcs': ws, 'n_queries': int(qx.size), 'n_robust': int(rb.sum()), 'robust_margin_px': d,
                         'sky': repr(S1)[:240]})
